@@ -1222,7 +1222,7 @@ Lemma codec_thunks_tie :
   k256_codec_f tt = k256_codec /\ p256_codec_f tt = p256_codec /\
   pallas_codec_f tt = pallas_codec /\ vesta_codec_f tt = vesta_codec /\
   blsg1_codec_f tt = blsg1_codec /\ ed25519_codec_f tt = ed25519_codec /\
-  curve25519_params_f tt = curve25519_params.
+  curve25519_params_f tt = curve25519_params /\ blsg2_codec_f tt = blsg2_codec.
 Proof. repeat apply conj; vm_compute; reflexivity. Qed.
 
 Lemma k256_codec_ok : prime (wp_p k256_params) -> wcodec_ok k256_codec.
@@ -1583,6 +1583,244 @@ Proof.
   { rewrite T, P255. reflexivity. }
   rewrite P256. rewrite D0, D1.
   set (A := 2 ^ 255). set (B := 2 ^ 256). apply eqm_refl_eq. ring.
+Qed.
+
+(* ---- BLS12-381 G2 ------------------------------------------------------------------------------ *)
+
+Definition w2_in_subgroup (c : w2codec) (P : w2pt) : Prop := w2_mul (w2c c) (w2_n (w2c c)) P = None.
+
+Lemma w2_torsion_free_spec c P : w2_torsion_free c P = true <-> w2_in_subgroup c P.
+Proof.
+  unfold w2_torsion_free, w2_in_subgroup. destruct (w2_mul (w2c c) (w2_n (w2c c)) P); split; congruence.
+Qed.
+
+Lemma iter_op_inf2 (K : fops z2) a q : Pos.iter_op (waff_add K a) q None = None.
+Proof. induction q as [q IH|q IH|]; cbn [Pos.iter_op waff_add]; auto. Qed.
+
+Lemma w2_mul_inf c k : w2_mul c k None = None.
+Proof.
+  unfold w2_mul, waff_mul. destruct k as [|q|q]; [reflexivity| |]; rewrite iter_op_inf2; reflexivity.
+Qed.
+
+(* the code's  x^2 * x + b  is the curve polynomial of Curve.on_curve when a = 0 (AddA is the
+   identity in g2_params.go) *)
+Lemma w2_set_affine_on_curve c x y P : w2_a (w2c c) = (0, 0) ->
+  w2_set_affine c x y = Some P -> P = Some (x, y) /\ w2_on_curve (w2c c) P = true.
+Proof.
+  intros Ha. unfold w2_set_affine. destruct (feqb (K2 c) _ _) eqn:E; [|discriminate].
+  intros [= <-]. split; [reflexivity|].
+  unfold w2_on_curve, on_curve. rewrite Ha. unfold w2_rhs, K2, w2c_p in E.
+  destruct x as [x0 x1], y as [y0 y1]. destruct (w2_b (w2c c)) as [b0 b1].
+  revert E. cbn [Fp2 feqb fmul fadd fp2_mul fst snd].
+  rewrite !andb_true_iff, !Z.eqb_eq. intros [E0 E1]. rewrite E0, E1.
+  split; zmod.
+Qed.
+
+Theorem blsg2_dec_u_valid c bs P : w2_a (w2c c) = (0, 0) ->
+  blsg2_dec_u c bs = Some P -> w2_on_curve (w2c c) P = true /\ w2_in_subgroup c P.
+Proof.
+  intros Ha. unfold blsg2_dec_u. destruct (negb (Nat.eqb (length bs) (4 * w2c_len c))); [discriminate|].
+  destruct bs as [|b0 r]; [discriminate|].
+  destruct (flagC b0 =? 1); [discriminate|]. destruct (flagS b0 =? 1); [discriminate|].
+  destruct (flagI b0 =? 1).
+  - destruct ((b0 mod 32 =? 0) && all_zero r); [|discriminate].
+    intros [= <-]. split; [reflexivity|apply w2_mul_inf].
+  - cbv zeta. match goal with |- match ?e with _ => _ end = _ -> _ => destruct e as [Q|] eqn:E end; [|discriminate].
+    destruct (w2_torsion_free c Q) eqn:T; [|discriminate].
+    intros [= <-]. apply (w2_set_affine_on_curve c _ _ _ Ha) in E. split; [tauto|now apply w2_torsion_free_spec].
+Qed.
+
+Theorem blsg2_from_affine_valid c x y P : w2_a (w2c c) = (0, 0) ->
+  blsg2_from_affine c x y = Some P ->
+  P = Some (x, y) /\ w2_on_curve (w2c c) P = true /\ w2_in_subgroup c P.
+Proof.
+  intros Ha. unfold blsg2_from_affine. destruct (w2_set_affine c x y) as [Q|] eqn:E; [|discriminate].
+  destruct (w2_torsion_free c Q) eqn:T; [|discriminate].
+  intros [= <-]. apply (w2_set_affine_on_curve c _ _ _ Ha) in E. repeat split; try tauto. now apply w2_torsion_free_spec.
+Qed.
+
+Theorem blsg2_wrong_length c bs :
+  (length bs <> (2 * w2c_len c)%nat -> blsg2_dec_c c bs = None) /\
+  (length bs <> (4 * w2c_len c)%nat -> blsg2_dec_u c bs = None).
+Proof.
+  split; intros H; [unfold blsg2_dec_c|unfold blsg2_dec_u];
+    match goal with |- (if negb ?b then _ else _) = _ => destruct b eqn:E end; try reflexivity;
+    apply Nat.eqb_eq in E; contradiction.
+Qed.
+
+Theorem blsg2_wrong_flags c b0 r :
+  (flagC b0 <> 1 -> blsg2_dec_c c (b0 :: r) = None) /\
+  (flagI b0 = 1 -> flagS b0 = 1 -> blsg2_dec_c c (b0 :: r) = None) /\
+  (flagI b0 = 1 -> (b0 mod 32 <> 0 \/ all_zero r = false) -> blsg2_dec_c c (b0 :: r) = None) /\
+  (flagC b0 = 1 -> blsg2_dec_u c (b0 :: r) = None) /\
+  (flagS b0 = 1 -> blsg2_dec_u c (b0 :: r) = None) /\
+  (flagI b0 = 1 -> (b0 mod 32 <> 0 \/ all_zero r = false) -> blsg2_dec_u c (b0 :: r) = None).
+Proof.
+  repeat apply conj.
+  - intros H. unfold blsg2_dec_c. destruct (negb (Nat.eqb _ _)); [reflexivity|].
+    apply Z.eqb_neq in H. rewrite H. reflexivity.
+  - intros HI HS. unfold blsg2_dec_c. destruct (negb (Nat.eqb _ _)); [reflexivity|].
+    destruct (negb (flagC b0 =? 1)); [reflexivity|]. rewrite HI, HS. reflexivity.
+  - intros HI H. unfold blsg2_dec_c. destruct (negb (Nat.eqb _ _)); [reflexivity|].
+    destruct (negb (flagC b0 =? 1)); [reflexivity|]. rewrite HI. cbn [Z.eqb Pos.eqb].
+    destruct (flagS b0 =? 1); [reflexivity|].
+    destruct H as [H|H]; [apply Z.eqb_neq in H; rewrite H|rewrite H, andb_false_r]; reflexivity.
+  - intros H. unfold blsg2_dec_u. destruct (negb (Nat.eqb _ _)); [reflexivity|]. rewrite H. reflexivity.
+  - intros H. unfold blsg2_dec_u. destruct (negb (Nat.eqb _ _)); [reflexivity|].
+    destruct (flagC b0 =? 1); [reflexivity|]. rewrite H. reflexivity.
+  - intros HI H. unfold blsg2_dec_u. destruct (negb (Nat.eqb _ _)); [reflexivity|].
+    destruct (flagC b0 =? 1); [reflexivity|]. destruct (flagS b0 =? 1); [reflexivity|].
+    rewrite HI. cbn [Z.eqb Pos.eqb].
+    destruct H as [H|H]; [apply Z.eqb_neq in H; rewrite H|rewrite H, andb_false_r]; reflexivity.
+Qed.
+
+(* ---- GT ------------------------------------------------------------------------------------------ *)
+
+Theorem gt_from_bytes_valid p r len bs x :
+  gt_from_bytes p r len bs = Some x ->
+  length bs = (12 * len)%nat /\
+  gt_coeffs x = map (fun ch => be_val ch mod p) (chunks len 12 bs) /\
+  fp12_eqb p (fp12_pow p x r) (fp12_one p) = true.
+Proof.
+  cbv beta delta [gt_from_bytes]. destruct (Nat.eqb (length bs) (12 * len)) eqn:E; [|discriminate].
+  cbn [negb]. apply Nat.eqb_eq in E.
+  destruct (gt_of_coeffs _) as [y|] eqn:G; [|discriminate].
+  destruct (fp12_eqb p (fp12_pow p y r) (fp12_one p)) eqn:M; [|discriminate].
+  intros H. apply some_inj in H. subst y. repeat split; [exact E| |exact M].
+  revert G. generalize (map (fun ch : list Z => be_val ch mod p) (chunks len 12 bs)). intros l.
+  unfold gt_of_coeffs.
+  do 12 (destruct l as [|? l]; [discriminate|]). destruct l; [|discriminate].
+  intros H. apply some_inj in H. subst x. reflexivity.
+Qed.
+
+(* ---- Fp2 square root (the library's algorithm) is sound ---------------------------------------- *)
+
+Lemma fp2_sqrt_general_alg p v0 v1 rt r0 H I s :
+  eqm p (rt * rt) (v0 * v0 + v1 * v1) ->
+  eqm p (r0 * r0) ((v0 + s * rt) * H) -> s * s = 1 ->
+  eqm p (2 * H) 1 -> eqm p ((r0 + r0) * I) 1 ->
+  eqm p (r0 * r0 - (I * v1) * (I * v1)) v0 /\ eqm p (r0 * (I * v1) + (I * v1) * r0) v1.
+Proof.
+  intros E1 E2 Hs E3 E4. split.
+  - set (A := r0 * r0 - I * v1 * (I * v1)).
+    assert (K1 : eqm p (4 * (r0 * r0) * (r0 * r0) - v1 * v1) (4 * (r0 * r0) * v0)).
+    { rewrite E2.
+      replace (4 * ((v0 + s * rt) * H) * ((v0 + s * rt) * H)) with ((2 * H) * (2 * H) * ((v0 + s * rt) * (v0 + s * rt))) by ring.
+      replace (4 * ((v0 + s * rt) * H) * v0) with (2 * (2 * H) * ((v0 + s * rt) * v0)) by ring.
+      rewrite E3.
+      replace (1 * 1 * ((v0 + s * rt) * (v0 + s * rt)) - v1 * v1)
+        with (v0 * v0 + 2 * s * v0 * rt + (s * s) * (rt * rt) - v1 * v1) by ring.
+      rewrite Hs, E1. apply eqm_refl_eq. ring. }
+    assert (S1 : eqm p ((r0 + r0) * (r0 + r0) * A) ((r0 + r0) * (r0 + r0) * v0)).
+    { unfold A.
+      replace ((r0 + r0) * (r0 + r0) * (r0 * r0 - I * v1 * (I * v1)))
+        with (4 * (r0 * r0) * (r0 * r0) - ((r0 + r0) * I) * ((r0 + r0) * I) * (v1 * v1)) by ring.
+      rewrite E4. replace (4 * (r0 * r0) * (r0 * r0) - 1 * 1 * (v1 * v1)) with (4 * (r0 * r0) * (r0 * r0) - v1 * v1) by ring.
+      rewrite K1. apply eqm_refl_eq. ring. }
+    transitivity (((r0 + r0) * I) * ((r0 + r0) * I) * A).
+    { rewrite E4. apply eqm_refl_eq. ring. }
+    replace ((r0 + r0) * I * ((r0 + r0) * I) * A) with (I * I * ((r0 + r0) * (r0 + r0) * A)) by ring.
+    rewrite S1.
+    replace (I * I * ((r0 + r0) * (r0 + r0) * v0)) with (((r0 + r0) * I) * ((r0 + r0) * I) * v0) by ring.
+    rewrite E4. apply eqm_refl_eq. ring.
+  - replace (r0 * (I * v1) + I * v1 * r0) with (((r0 + r0) * I) * v1) by ring.
+    rewrite E4. apply eqm_refl_eq. ring.
+Qed.
+
+Lemma ts_sqrt_eqm p e g rou v s : ts_sqrt p e g rou v = Some s -> eqm p (s * s) v.
+Proof. intros H. apply ts_sqrt_sound in H. unfold eqm. unfold mulm in H. exact H. Qed.
+
+Theorem fp2_sqrt_sound c v y : prime (w2c_p c) -> 2 < w2c_p c ->
+  fp2_sqrt c v = Some y ->
+  fmul (K2 c) y y = (fst v mod w2c_p c, snd v mod w2c_p c).
+Proof.
+  intros Hp Hp2. unfold fp2_sqrt. set (p := w2c_p c). destruct v as [v0 v1]. cbn [fst snd].
+  destruct (v1 =? 0) eqn:Ev.
+  - apply Z.eqb_eq in Ev. subst v1.
+    destruct (w2c_sqrt_p c v0) as [s0|] eqn:E0.
+    + intros [= <-]. apply ts_sqrt_eqm in E0. fold p in E0.
+      unfold K2. fold p. cbn [Fp2 fmul fp2_mul]. f_equal.
+      * unfold eqm in E0. rewrite <- E0. zmod.
+      * rewrite Zmod_0_l. rewrite Z.mul_0_r, Z.mul_0_l. reflexivity.
+    + destruct (w2c_sqrt_p c (negm p v0)) as [s1|] eqn:E1; [|discriminate].
+      intros [= <-]. apply ts_sqrt_eqm in E1. fold p in E1.
+      unfold K2. fold p. cbn [Fp2 fmul fp2_mul]. f_equal.
+      * assert (E : eqm p (0 * 0 - s1 * s1) v0).
+        { rewrite E1. unfold negm. rewrite (mod_eqm p). apply eqm_refl_eq. ring. }
+        exact E.
+      * rewrite Zmod_0_l, Z.mul_0_l, Z.mul_0_r. reflexivity.
+  - apply Z.eqb_neq in Ev.
+    destruct (w2c_sqrt_p c (addm p (mulm p v0 v0) (mulm p v1 v1))) as [rt|] eqn:Er; [|discriminate].
+    cbv zeta. set (H := zp_inv p (2 mod p)).
+    assert (E1 : eqm p (rt * rt) (v0 * v0 + v1 * v1)).
+    { apply ts_sqrt_eqm in Er. fold p in Er. rewrite Er. unfold_m.
+      pose proof (mod_eqm p) as Hq. rewrite_strat (repeat (outermost Hq)). reflexivity. }
+    assert (E3 : eqm p (2 * H) 1).
+    { unfold eqm, H. rewrite <- (Zmult_mod_idemp_l 2).
+      rewrite (zp_inv_correct p (2 mod p) Hp); [symmetry; apply one_mod; lia|].
+      rewrite Z.mod_small by lia. lia. }
+    assert (Fin : forall r0 s, s * s = 1 ->
+              eqm p (r0 * r0) ((v0 + s * rt) * H) ->
+              (if addm p r0 r0 =? 0 then None else Some (r0, mulm p (zp_inv p (addm p r0 r0)) v1)) = Some y ->
+              fmul (K2 c) y y = (v0 mod p, v1 mod p)).
+    { intros r0 s Hs E2. destruct (addm p r0 r0 =? 0) eqn:Ec; [discriminate|]. apply Z.eqb_neq in Ec.
+      intros [= <-]. set (I := zp_inv p (addm p r0 r0)).
+      assert (E4 : eqm p ((r0 + r0) * I) 1).
+      { assert (R : 0 < addm p r0 r0 < p).
+        { assert (0 <= addm p r0 r0 < p) by (unfold addm; apply Z.mod_pos_bound; lia). lia. }
+        pose proof (zp_inv_correct p _ Hp R) as Hi. fold I in Hi.
+        unfold eqm. rewrite <- Hi. unfold addm. zmod. }
+      destruct (fp2_sqrt_general_alg p v0 v1 rt r0 H I s E1 E2 Hs E3 E4) as [G0 G1].
+      unfold K2. fold p. cbn [Fp2 fmul fp2_mul]. unfold mulm. f_equal.
+      - unfold eqm in G0. rewrite <- G0. zmod.
+      - unfold eqm in G1. rewrite <- G1. zmod. }
+    destruct (w2c_sqrt_p c (mulm p (subm p v0 rt) H)) as [sn|] eqn:En.
+    + apply (Fin sn (-1)); [reflexivity|].
+      apply ts_sqrt_eqm in En. fold p in En. rewrite En. unfold_m.
+      pose proof (mod_eqm p) as Hq. rewrite_strat (repeat (outermost Hq)). apply eqm_refl_eq. ring.
+    + destruct (w2c_sqrt_p c (mulm p (addm p v0 rt) H)) as [sp|] eqn:Ep; [|discriminate].
+      apply (Fin sp 1); [reflexivity|].
+      apply ts_sqrt_eqm in Ep. fold p in Ep. rewrite Ep. unfold_m.
+      pose proof (mod_eqm p) as Hq. rewrite_strat (repeat (outermost Hq)). apply eqm_refl_eq. ring.
+Qed.
+
+Lemma fp2_neg_sq p y : fp2_mul p (fopp (Fp2 p) y) (fopp (Fp2 p) y) = fp2_mul p y y.
+Proof. destruct y as [y0 y1]. cbn [Fp2 fopp fp2_mul fst snd]. f_equal; zmod. Qed.
+
+Lemma w2_on_curve_of_sq c x y : w2_a (w2c c) = (0, 0) ->
+  fmul (K2 c) y y = w2_rhs c x -> w2_on_curve (w2c c) (Some (x, y)) = true.
+Proof.
+  intros Ha E.
+  assert (S : w2_set_affine c x y = Some (Some (x, y))).
+  { unfold w2_set_affine. rewrite E. destruct (w2_rhs c x) as [a0 a1].
+    unfold K2. cbn [Fp2 feqb fst snd]. now rewrite !Z.eqb_refl. }
+  apply (w2_set_affine_on_curve c _ _ _ Ha) in S. tauto.
+Qed.
+
+Theorem blsg2_dec_c_valid c bs P : prime (w2c_p c) -> 2 < w2c_p c -> w2_a (w2c c) = (0, 0) ->
+  blsg2_dec_c c bs = Some P -> w2_on_curve (w2c c) P = true /\ w2_in_subgroup c P.
+Proof.
+  intros Hp Hp2 Ha. unfold blsg2_dec_c. destruct (negb (Nat.eqb (length bs) (2 * w2c_len c))); [discriminate|].
+  destruct bs as [|b0 r]; [discriminate|].
+  destruct (negb (flagC b0 =? 1)); [discriminate|].
+  destruct (flagI b0 =? 1).
+  - destruct (flagS b0 =? 1); [discriminate|].
+    destruct ((b0 mod 32 =? 0) && all_zero r); [|discriminate].
+    intros [= <-]. split; [reflexivity|apply w2_mul_inf].
+  - cbv zeta. set (x := (_, _)).
+    destruct (fp2_sqrt c (w2_rhs c x)) as [y|] eqn:E; [|discriminate].
+    match goal with |- (if w2_torsion_free c ?Q then _ else _) = _ -> _ =>
+      destruct (w2_torsion_free c Q) eqn:T; [|discriminate] end.
+    intros [= <-]. split; [|now apply w2_torsion_free_spec].
+    apply (fp2_sqrt_sound c _ _ Hp Hp2) in E.
+    assert (Hr : (fst (w2_rhs c x) mod w2c_p c, snd (w2_rhs c x) mod w2c_p c) = w2_rhs c x).
+    { unfold w2_rhs, K2. cbn [Fp2 fadd fst snd]. now rewrite !Zmod_mod. }
+    rewrite Hr in E.
+    destruct (xorb _ _).
+    + apply (w2_on_curve_of_sq c x _ Ha).
+      change (fp2_mul (w2c_p c) (fopp (Fp2 (w2c_p c)) y) (fopp (Fp2 (w2c_p c)) y) = w2_rhs c x).
+      rewrite fp2_neg_sq. exact E.
+    + apply (w2_on_curve_of_sq c x _ Ha). exact E.
 Qed.
 
 (* ---- non-vacuity: a toy curve over F_11 meets every hypothesis ---------------------------------- *)
